@@ -37,7 +37,15 @@ pub struct Member {
 #[derive(Clone, Debug, Serialize, Deserialize)]
 pub enum Case {
     Chain { vols: Vec<Vol>, ops: Vec<ChainOp> },
-    Extract { members: Vec<Member>, globs: Vec<String>, uniq: u64, cancel_after: Option<usize> },
+    Extract {
+        members: Vec<Member>,
+        globs: Vec<String>,
+        uniq: u64,
+        cancel_after: Option<usize>,
+        /// another archive with the same file name (in another directory) that is opened first in the same process
+        #[serde(default)]
+        prior: Vec<Member>,
+    },
 }
 
 fn gen_chain(rng: &mut Rng) -> Case {
@@ -215,9 +223,9 @@ impl Check for C20 {
                 ctx.sig.u64(1);
                 run_chain(vols, ops, ctx)
             }
-            Case::Extract { members, globs, uniq, cancel_after } => {
+            Case::Extract { members, globs, uniq, cancel_after, prior } => {
                 ctx.sig.u64(2);
-                crate::c20x::run_extract(members, globs, *uniq, *cancel_after, ctx)
+                crate::c20x::run_extract(members, globs, *uniq, *cancel_after, prior, ctx)
             }
         }
     }
@@ -258,19 +266,22 @@ impl Check for C20 {
                     }
                 }
             }
-            Case::Extract { members, globs, uniq, cancel_after } => {
+            Case::Extract { members, globs, uniq, cancel_after, prior } => {
+                if !prior.is_empty() {
+                    out.push(Case::Extract { members: members.clone(), globs: globs.clone(), uniq: *uniq, cancel_after: *cancel_after, prior: vec![] });
+                }
                 for m in shrink_vec(members) {
-                    out.push(Case::Extract { members: m, globs: globs.clone(), uniq: *uniq, cancel_after: *cancel_after });
+                    out.push(Case::Extract { members: m, globs: globs.clone(), uniq: *uniq, cancel_after: *cancel_after, prior: prior.clone() });
                 }
                 if globs.len() > 1 {
                     for g in shrink_vec(globs) {
                         if !g.is_empty() {
-                            out.push(Case::Extract { members: members.clone(), globs: g, uniq: *uniq, cancel_after: *cancel_after });
+                            out.push(Case::Extract { members: members.clone(), globs: g, uniq: *uniq, cancel_after: *cancel_after, prior: prior.clone() });
                         }
                     }
                 }
                 if cancel_after.is_some() {
-                    out.push(Case::Extract { members: members.clone(), globs: globs.clone(), uniq: *uniq, cancel_after: None });
+                    out.push(Case::Extract { members: members.clone(), globs: globs.clone(), uniq: *uniq, cancel_after: None, prior: prior.clone() });
                 }
             }
         }
@@ -301,7 +312,7 @@ impl Check for C20 {
         vec!["volume readers (ScriptedSource)", "archive producer (zip writer)", "file system = real fs inside a per-run sandbox directory"]
     }
     fn required_reach() -> Vec<&'static str> {
-        vec!["empty_volume", "short_reads", "seek_error_both", "alias_member_names"]
+        vec!["empty_volume", "short_reads", "seek_error_both", "alias_member_names", "same_named_archive_opened_before"]
     }
 }
 
